@@ -64,7 +64,7 @@ impl Violation {
         let mut spec = m.clone();
         let mut used: Vec<usize> = trace
             .iter()
-            .filter(|s| s.op != "init" && s.op != "raw" && s.op != "rewrap" && s.op != "build")
+            .filter(|s| is_field_op(&s.op))
             .map(|s| s.f)
             .collect();
         used.sort();
@@ -78,7 +78,7 @@ impl Violation {
                 fs.name = format!("f{ni}");
                 newf.push(fs);
                 for s in trace.iter_mut() {
-                    if s.op != "init" && s.op != "raw" && s.op != "rewrap" && s.f == oi {
+                    if is_field_op(&s.op) && s.f == oi {
                         s.f = ni;
                     }
                 }
@@ -99,6 +99,10 @@ impl Violation {
             spec,
         }
     }
+}
+
+fn is_field_op(op: &str) -> bool {
+    matches!(op, "with" | "set" | "get" | "set_probe")
 }
 
 pub fn expect_value(v: u128) -> Expect {
